@@ -63,7 +63,8 @@ def cases(tier, seed, info):
 REG = [
     dict(type='BD', reason='2030', message='Power fault on rail %1 status %2', args=[6, 7]),
     dict(type='BD', reason='2030', message='second entry must not win', args=[]),
-    dict(type='11', reason='00AC', message='No arguments at all', args=[]),
+    # (more argument sources than the message has placeholders: the surplus is ignored)
+    dict(type='11', reason='00AC', message='Fan %1 failed - 100% certain', args=[9, 3, 4]),
     dict(type='BC', reason='8A01', message='%1 then %2 then %3 and %4', args=[9, 2, 5, 8]),
     dict(type='BD', reason='E500', message='', args=[]),
 ]
@@ -99,7 +100,7 @@ def build(rng, it):
     k = it['k']
     creator = ['O', 'B', 'H', 'O', 'M'][k % 5]
     pel = genpel.gen_pel(rng, kinds=[], creator=creator)
-    kind = ['BD', '11', 'BC', 'other'][k % 4]
+    kind = ['BD', '11', 'BC', 'other'][(k // 4 + k) % 4]      # (every kind meets the reason codes the registry knows: k % 4 == 0)
     secs = []
     nsrc = 1 + (k % 3 == 0) + (k % 7 == 0)
     for j in range(nsrc):
